@@ -46,6 +46,7 @@ class Profile:
         self.alloc_heavy = False
         self.extreme = False           # extreme constants (C05)
         self.asserts_false = True      # allow assertions that may fail
+        self.forms_only = False        # file-level programs made of definitions and output statements only (C13)
         self.__dict__.update(kw)
 
 
@@ -479,6 +480,10 @@ class G:
             # File-level statements are kept simple: closures, try blocks, while loops and generator-driven loops at file level hit
             # several compiler defects (known findings K9, K10, K13); the rich constructs live inside functions.
             opts = [o for o in opts if o not in ("declfn", "declfnmk", "try", "while", "forgen", "callthrow", "assignthrow")]
+        if getattr(self.p, "forms_only", False) and ctx.get("filelevel") and ctx.get("func") is None and not ctx.get("infunc"):
+            # C13: top-level forms are definitions and output statements (the loop echoes each form's value, so a compound statement
+            # whose branches have different types is not a form it accepts)
+            opts = [o for o in opts if o not in ("if", "for", "forlist", "forgen", "while", "ucase", "try")]
         if ctx.get("nolambda"):
             opts = [o for o in opts if o not in ("declfn", "declfnmk")]
         if ctx.get("nodecl"):
@@ -1353,6 +1358,8 @@ class Renderer:
     def s(self, s, ind):
         k = s[0]
         I = ind
+        if k == "raw":
+            return [(I, l) for l in s[1]]
         if k == "decl":
             return [(I, "%s: %s := %s;" % (s[1], self.T(s[2]), self.x(s[3])))]
         if k == "assign":
@@ -1424,6 +1431,8 @@ class Renderer:
         # output helpers: the value is computed (with all its effects) before anything is written
         for t in (MI, Z, BOOL, STR, LIST):
             L.append((0, 'pr%s(tg: String, x: %s): () == { stdout << "@ " << tg << x << newline; }' % (t, self.T(t))))
+        for l in getattr(self, "extra_top", ()):
+            L.append((0, l))
         return L
 
     def top(self):
@@ -1476,6 +1485,68 @@ class Renderer:
 
 def render(prog):
     return Renderer(prog).text()
+
+
+# --------------------------------------------------------------------------------------------- ill-typed mutants (C06, C13, C15)
+MUTANT_KINDS = ["M1", "M2a", "M2b", "M3", "M4", "M5", "M6", "M7", "M8"]
+TOK_DECL = "TokQ: with { mkTokQ: () -> % } == add { Rep == MachineInteger; import from Rep; mkTokQ(): % == per 0 };"
+HLP_DECL = "hlpQ(x: MachineInteger): MachineInteger == x + (1@MachineInteger);"
+
+
+def mutant_parts(kind, n=0):
+    """(top-level declaration lines, statement lines or None, offending token) for one catalogue entry.
+    Each fault is certain: type clashes use the nominal domain TokQ that no operation accepts."""
+    if kind == "M1":
+        return [TOK_DECL, HLP_DECL], ["qv%d: MachineInteger := hlpQ(mkTokQ()$TokQ);" % n], "mkTokQ"
+    if kind == "M2a":
+        return [HLP_DECL], ["qv%d: MachineInteger := hlpQ();" % n], "hlpQ"
+    if kind == "M2b":
+        return [HLP_DECL], ["qv%d: MachineInteger := hlpQ((1@MachineInteger), (2@MachineInteger));" % n], "hlpQ"
+    if kind == "M3":
+        return [], ['prMI("", undefinedNameQ%d);' % n], "undefinedNameQ%d" % n
+    if kind == "M4":
+        return ["ambQ(): MachineInteger == (1@MachineInteger);", "ambQ(): Integer == (2@Integer);"], ["qz%d := ambQ();" % n], "qz%d" % n
+    if kind == "M5":
+        # the constant is defined in the same scope as the assignment (an assignment inside a function to a constant of an outer scope
+        # would legally create a local variable)
+        return [], ["cstQ%d: MachineInteger == (3@MachineInteger);" % n, "cstQ%d := (4@MachineInteger);" % n], "cstQ%d" % n
+    if kind == "M6":
+        return [TOK_DECL, "badretQ(x: MachineInteger): MachineInteger == mkTokQ()$TokQ;"], None, "mkTokQ"
+    if kind == "M7":
+        return ["CtQ: Category == with { e1Q: % -> MachineInteger; e2Q: % -> MachineInteger };",
+                "DmQ: CtQ == add { Rep == MachineInteger; e1Q(x: %): MachineInteger == (1@MachineInteger) };"], None, "add"
+    if kind == "M8":
+        return ["CtP: Category == with { e1P: % -> MachineInteger };",
+                "DmP(T: CtP): with { gP: T -> MachineInteger } == add { gP(t: T): MachineInteger == opNotThereQ(t) };"], None, "opNotThereQ"
+    raise ValueError(kind)
+
+
+def mutant_sites(prog):
+    """eligible statement sites: ('main', i) for every position of the main block, ('func', fi, i) for every position of every body"""
+    sites = [("main", i) for i in range(len(prog[2]) + 1)]
+    d = decls_of(prog)
+    for fi, f in enumerate(d["funcs"]):
+        for i in range(len(f["body"]) + 1):
+            sites.append(("func", fi, i))
+    return sites
+
+
+def render_mutant(prog, kind, site, n=0):
+    tops, stmt, tok = mutant_parts(kind, n)
+    r = Renderer(prog)
+    r.extra_top = tops
+    if stmt is not None:
+        raw = ("raw", tuple(stmt))
+        if site[0] == "main":
+            main = list(prog[2])
+            main.insert(site[1], raw)
+            r.prog = (prog[0], prog[1], tuple(main), prog[3], prog[4])
+        else:
+            f = r.d["funcs"][site[1]]
+            b = list(f["body"])
+            b.insert(site[2], raw)
+            f["body"] = tuple(b)
+    return r.text(), tok
 
 
 def has_recursion(prog):
